@@ -37,6 +37,22 @@ type filters struct {
 	// verdict[point][filter index][request id]; missing = GoOn
 	verdict map[int][]map[int]int
 	execs   []filtExec
+	// accept[filter index][connection index]; missing = GoOn
+	accept      []map[int]int
+	acceptExecs []filtExec // ReqID = connection index
+}
+
+// connOfPort: clients of the node engine connect from port 5000+connection index
+func connOfPort(port int) int { return port - 5000 }
+
+// firstAcceptVerdict: the first non-continue verdict of the accept chain for a connection.
+func (f *filters) firstAcceptVerdict(conn int) (idx, v int, ok bool) {
+	for i, m := range f.accept {
+		if x := m[conn]; x != vGoOn {
+			return i, x, true
+		}
+	}
+	return 0, 0, false
 }
 
 func (f *filters) v(point, idx, id int) int {
@@ -55,6 +71,22 @@ func filterBody(id, point, idx int) string { return fmt.Sprintf("filter-response
 
 // install registers the generated chains through the real AddFilter.
 func (f *filters) install(srv *BfeServer) {
+	for idx := range f.accept {
+		idx := idx
+		srv.CallBacks.AddFilter(bfe_module.HandleAccept, func(session *bfe_basic.Session) int {
+			conn := -1
+			if a := session.RemoteAddr; a != nil {
+				conn = connOfPort(a.Port)
+			}
+			v := f.accept[idx][conn]
+			seq := f.e.s.Note("filter", fmt.Sprintf("conn %d HANDLE_ACCEPT#%d -> %s", conn, idx, vNames[v]))
+			f.acceptExecs = append(f.acceptExecs, filtExec{conn, bfe_module.HandleAccept, idx, v, seq})
+			if v == vClose {
+				return bfe_module.BfeHandlerClose
+			}
+			return bfe_module.BfeHandlerGoOn
+		})
+	}
 	for _, point := range []int{bfe_module.HandleBeforeLocation, bfe_module.HandleFoundProduct, bfe_module.HandleAfterLocation,
 		bfe_module.HandleForward, bfe_module.HandleReadResponse, bfe_module.HandleRequestFinish} {
 		chain := f.verdict[point]
@@ -113,6 +145,18 @@ func (f *filters) install(srv *BfeServer) {
 func (e *eng) genFilters(ids []int, allowed map[int][]int, chance int) *filters {
 	tp := e.tp
 	f := &filters{e: e, verdict: map[int][]map[int]int{}}
+	if len(allowed[bfe_module.HandleAccept]) > 0 {
+		n := tp.Draw(4, "filters.accept_len")
+		for i := 0; i < n; i++ {
+			m := map[int]int{}
+			for ci := range e.byConn {
+				if tp.Chance(1, chance+2, "filters.accept_close") {
+					m[ci] = vClose
+				}
+			}
+			f.accept = append(f.accept, m)
+		}
+	}
 	for _, point := range []int{bfe_module.HandleBeforeLocation, bfe_module.HandleFoundProduct, bfe_module.HandleAfterLocation,
 		bfe_module.HandleForward, bfe_module.HandleReadResponse, bfe_module.HandleRequestFinish} {
 		vs := allowed[point]
